@@ -93,7 +93,9 @@ class LightSet(i_controller.LightSet):
         # Get rid of a light's proxy if it hasn't responded for a while.
         logging.debug("garbage collect, currently have {} lights"
                       .format(len(self._lights)))
-        max_age = int(settings.get_value('light_gc_time', 20 * 60))
+        # Seconds, like the two sleep times next to it in the settings: need
+        # not be a whole number, and comes as text from a configuration file.
+        max_age = float(settings.get_value('light_gc_time', 20 * 60))
         target_lights = []
         for light in self._lights.values():
             if light.get_age() > max_age:
